@@ -387,13 +387,12 @@ structure Proj where
   queue : Bool
   blocked : Bool
   counters : Bool
-  held : Bool := false     -- keep the `+held` verdicts of the channel windows
 
-def projFull : Proj := ⟨"!?~cwdP+", true, true, true, true, true⟩
-def proj06 : Proj := ⟨"cdP+", true, true, false, false, false⟩
-def proj07 : Proj := ⟨"!~cP", false, false, false, false, true⟩
-def proj08 : Proj := ⟨"!?~cwdP", false, false, false, true, false⟩
-def proj09 : Proj := ⟨"+", true, true, true, false, false⟩
+def projFull : Proj := ⟨"!?~cwdP+", true, true, true, true⟩
+def proj06 : Proj := ⟨"cdP+", true, true, false, false⟩
+def proj07 : Proj := ⟨"!~cP", false, false, false, false⟩
+def proj08 : Proj := ⟨"!?~cwdP", false, false, false, true⟩
+def proj09 : Proj := ⟨"+", true, true, true, false⟩
 
 def projectTok (p : Proj) (tok : String) : String :=
   if tok.startsWith "F:" then
@@ -405,7 +404,7 @@ def projectTok (p : Proj) (tok : String) : String :=
     let parts := body.splitOn ","
     let tag := parts.headD ""
     let tag' := if p.tags || tag == "x" then tag else "-"
-    let evs := parts.tail.filter fun e => (p.held && e == "+held") || match e.toList with
+    let evs := parts.tail.filter fun e => match e.toList with
       | c :: _ => p.events.toList.contains c
       | [] => false
     let q' := if p.blocked then q else "/".intercalate ((q.splitOn "/").take 2)
